@@ -25,7 +25,8 @@ Up(f) == CASE f = "a" -> "A" [] f = "b" -> "B" [] f = "c" -> "C" [] f = "z" -> "
 \* every document (in a shared package the same-named definitions would be renamed by order of arrival)
 OwnPkgs == Mapping \in {"own", "samebase"}
 \* mapping "own" also names the root type of every id (--schema-root-type): Root<F> instead of <F>Json
-RootName(f) == IF Mapping = "own" \/ (Mapping = "rootonly" /\ f = "b") THEN "Root" \o Up(f) ELSE Up(f) \o "Json"
+RootName(f) == IF Mapping = "own" \/ (Mapping = "rootonly" /\ f = "b") \/ (Mapping = "mixedflags" /\ f \in {"a", "c"})
+               THEN "Root" \o Up(f) ELSE Up(f) \o "Json"
 TypesDef == [f \in FilesDef |-> {RootName(f), Up(f) \o "Def"} \cup (IF OwnPkgs THEN {RootName(f) \o "Mix"} ELSE {})]
 CommonDef == IF OwnPkgs THEN {"Base"} ELSE {}
 \* mapping modes: default (everything to one file / package), own (each id its own), sharedsame (a and b share a
@@ -40,6 +41,10 @@ OutDef == [f \in FilesDef |->
     [] Mapping = "shareddiff" -> IF f \in {"a", "b"} THEN "pab/ab.go" ELSE "p" \o f \o "/" \o f \o ".go"
     \* an id named by ONE per-schema flag only: what is not named falls back to the default output / package
     \* (before fix 0c5462d the output name stayed empty and the schema's code was written nowhere)
+    \* mixedflags: a is named by --schema-root-type only, b by package + output, c by output + package + root type,
+    \* z by nothing; every id is written with an upper-case scheme and an empty fragment ("HTTPS://example.com/a#"),
+    \* ids are compared as the text they are
+    [] Mapping = "mixedflags" -> IF f \in {"b", "c"} THEN "p" \o f \o "/" \o f \o ".go" ELSE "all/all.go"
     [] Mapping \in {"pkgonly", "rootonly"} -> IF f = "b" /\ "PackageWithoutOutputLost" \in Devs THEN "" ELSE "all/all.go"]
 PkgDef == [f \in FilesDef |->
   CASE Mapping = "default"    -> "all"
@@ -50,7 +55,8 @@ PkgDef == [f \in FilesDef |->
     \* pkgonly: b asks for package pb in the default output, which everything else uses under package all: a run that
     \* emits b next to another schema must fail (one file, two packages), a run of b alone yields package pb
     [] Mapping = "pkgonly"    -> IF f = "b" THEN "pb" ELSE "all"
-    [] Mapping = "rootonly"   -> "all"]
+    [] Mapping = "rootonly"   -> "all"
+    [] Mapping = "mixedflags" -> IF f \in {"b", "c"} THEN "p" \o f ELSE "all"]
 
 Seqs(S) == UNION {{s \in [1..n -> S] : \A i, j \in 1..n : i # j => s[i] # s[j]} : n \in 1..Cardinality(S)}
 OrdersDef == IF Tier = "quick" THEN {s \in Seqs(FilesDef) : Len(s) <= 2 \/ (Len(s) = 3 /\ "z" \notin {s[i] : i \in DOMAIN s})}
@@ -64,7 +70,7 @@ HistoryIndependent == Finished => \A f \in declared : OutOf[f] # "" =>
 \* Go cannot build packages that import each other: where the reference graph has a cycle across packages the
 \* clause "the emitted packages build together" cannot be met by any generator and is not judged
 PkgCycle == Graph = "cycle" /\ {"a", "b"} \subseteq declared /\ OutOf["a"] # OutOf["b"] /\ PkgOf["a"] # "" /\ OutOf["a"] # "" /\ OutOf["b"] # ""
-            /\ <<OutOf["a"], PkgOf["a"]>> # <<OutOf["b"], PkgOf["b"]>> /\ Mapping \in {"own", "samebase"}
+            /\ <<OutOf["a"], PkgOf["a"]>> # <<OutOf["b"], PkgOf["b"]>> /\ Mapping \in {"own", "samebase", "mixedflags"}
 \* deviation "SameBaseImportClash": the import alias is the last element of the import path, so a file that refers to
 \* two packages whose paths end in the same element declares the alias twice and does not compile
 ImportClash == \E f \in declared : \E g, h \in RefsOf[f] : g # h /\ PkgOf[g] = PkgOf[h] /\ OutOf[g] # OutOf[h]
